@@ -25,6 +25,10 @@ func ZZ_C19_mhcv_constructor() {
 //zz: prop=C19 tier=quick backend=bv timeout=300
 func ZZ_C19_mhcv_gadget_calls_cover_the_measurement() {
 	length, maxWeight, chunk := uint(zzU8("length")), uint(zzU8("maxWeight")), uint(zzU8("chunkLength"))
+	if zzThorough() {
+		length, maxWeight, chunk = uint(zzU16("length16")), uint(zzU16("maxWeight16")), uint(zzU16("chunkLength16"))
+		zzAssumeNote(length < 1024 && chunk < 1024, "bound (thorough tier): length, chunkLength < 1024")
+	}
 	m, err := newFlpMultiCountHotVec(length, maxWeight, chunk)
 	if err != nil {
 		return
